@@ -51,6 +51,9 @@ DEFAULTS = {
     "quote_entities": False,  # " and ' as &quot; / &apos;
     "indent": False,  # line breaks + indentation between the non-text elements
     "indent_cells": False,  # with indent: also between a cell element and its paragraphs (pretty-printed XML)
+    # rows may stand in containers: the first row element in table:table-header-rows ("rows to repeat when
+    # printing"), the following ones in a (nested) table:table-row-group (outline groups), the rest in table:table-rows
+    "row_containers": "none",  # none | header | group | all
     "deflate": True,  # content.xml deflated (otherwise stored)
     "bare_empty": False,  # rows without cells / tables without rows written without children
 }
@@ -339,12 +342,25 @@ def content_xml(sheets, opts=None, fault=None):
                 else:
                     cell_xml.append(nl + ind(5) + "<table:table-cell%s/>" % attr)
                 cell_layouts.append({"repeat": cell_count, "text": text, "pieces": pieces})
+            containers = opts.get("row_containers", "none")
+            opened, closed = "", ""
+            if containers in ("header", "all") and row_index == 0:
+                opened, closed = "<table:table-header-rows>", "</table:table-header-rows>"
+            elif containers in ("group", "all") and row_index in (1, 2):
+                opened = "<table:table-row-group>" + ("<table:table-row-group>" if row_index == 2 else "")
+                closed = ("</table:table-row-group>" if row_index == 2 else "") + "</table:table-row-group>"
+            elif containers == "all" and row_index >= 3:
+                opened, closed = "<table:table-rows>", "</table:table-rows>"
+            if opened:
+                out.append(nl + ind(4) + opened)
             if cell_xml:
                 out.append(nl + ind(4) + "<table:table-row%s>" % row_attr)
                 out.extend(cell_xml)
                 out.append(nl + ind(4) + "</table:table-row>")
             else:
                 out.append(nl + ind(4) + "<table:table-row%s/>" % row_attr)
+            if closed:
+                out.append(nl + ind(4) + closed)
             sheet_layout.append({"repeat": row_count, "cells": cell_layouts})
         out.append(nl + ind(3) + "</table:table>")
         layout.append(sheet_layout)
@@ -488,13 +504,24 @@ def _paragraph_text(p):
     return "".join(result)
 
 
+def _row_elements(element):
+    """The table:table-row elements of a table in document order, wherever the format allows them to stand."""
+    containers = (_q("table", "table-header-rows"), _q("table", "table-row-group"), _q("table", "table-rows"))
+    for child in element:
+        if child.tag == _q("table", "table-row"):
+            yield child
+        elif child.tag in containers:
+            for row in _row_elements(child):
+                yield row
+
+
 def decode(content_bytes):
     """Logical tables of a content.xml (list of sheets, rows, cells) by the ODF rules named in the module text."""
     root = ElementTree.fromstring(content_bytes)
     sheets = []
     for table in root.findall("office:body/office:spreadsheet/table:table", NS):
         rows = []
-        for row in table.findall("table:table-row", NS):
+        for row in _row_elements(table):
             cells = []
             for cell in row.findall("table:table-cell", NS):
                 text = "\n".join(_paragraph_text(p) for p in cell.findall("text:p", NS))
